@@ -21,6 +21,8 @@ def main():
     keep_fail = cfg.get("keep_fail", 4)
     kept, excluded, findings = [], [], []
     nfail = 0
+    nfail_fixed = 0
+    keep_fail_fixed = cfg.get("keep_fail_fixed", 10)
     stats = collections.Counter()
     for c in cands:
         r = res[c["id"]]
@@ -30,9 +32,11 @@ def main():
         c = dict(c); c["quick"] = c["id"] in quick_ids
         if r["findings"]:
             stats["failing"] += 1
-            pinned = c.get("pin") or c.get("family") == "fixed"
-            if pinned or nfail < keep_fail:
-                if not pinned: nfail += 1
+            pinned = bool(c.get("pin"))
+            is_fixed = c.get("family") == "fixed"
+            if pinned or (is_fixed and nfail_fixed < keep_fail_fixed) or (not is_fixed and nfail < keep_fail):
+                if is_fixed and not pinned: nfail_fixed += 1
+                elif not pinned: nfail += 1
                 kept.append(c)
                 for f in r["findings"]:
                     findings.append({"property": prop, "key": f["key"], "what": f["what"][:300]})
